@@ -1871,10 +1871,39 @@ fn forced_schedule(ctx: &mut Ctx, pair_idx: usize, schedule: u64, cut: u32) {
             ctx.report.violation("oracle", "C02:opstamp-not-increasing", format!("forced schedule {sname}: the call that stamped first returned {a}, the other {b}"), case.clone());
         }
     }
-    // admissible outcomes: the sequential replay of the two calls in call order, and - when the
-    // calls overlap - in the other order (Lean specification)
     let all_ids: Vec<u64> = vec![1, 2, 3, 10, 11, 12, 60, 61];
     let prior = vec![(Tok::Add(1), None), (Tok::Add(2), None), (Tok::Commit(None), None), (Tok::Add(3), None)];
+    // correspondence with the Lean state machine: its sub-step events `stamp` / `publish`, run in
+    // the same schedule with one worker, predict what the real writer publishes and returns
+    // (F10 included: the model has the defect too, C02_substeps_counterexample)
+    {
+        let mut toks = vec![(forced_tok(&op1), None), (forced_tok(&op2), None)];
+        toks.extend(prior.iter().cloned());
+        let resp = ask(ctx, &format!("C02 substeps {cut} {schedule} {}", render(&toks, &all_ids, false)));
+        // (the worker thread is not under the harness's control: `pub` = it took each batch as
+        // soon as it was sent, `lazy` = only when the commit waited for it; the absolute opstamps
+        // are not compared: `consider_merge_options` draws stamps whenever a segment is registered)
+        let eager = field(&resp, "pub").and_then(|s| crate::model::parse_nat_list(&s));
+        let lazy = field(&resp, "lazy").and_then(|s| crate::model::parse_nat_list(&s));
+        match (eager, lazy) {
+            (Some(eager), Some(lazy)) => {
+                ctx.report.count("forced-schedule:model-compared");
+                if eager != lazy {
+                    ctx.report.count("forced-schedule:model-worker-timing-matters");
+                }
+                if real == eager {
+                    ctx.report.count("forced-schedule:model-agrees:eager-worker");
+                } else if real == lazy {
+                    ctx.report.count("forced-schedule:model-agrees:lazy-worker");
+                } else {
+                    ctx.report.violation("model", "C02:forced-schedule-model-mismatch", format!("forced schedule {sname} (cut {cut}) of {:?} | {:?}: the real writer published {:?}, the Lean state machine with the same sub-step schedule {:?} (eager worker) / {:?} (lazy worker)", op1, op2, real, eager, lazy), case.clone());
+                }
+            }
+            _ => ctx.report.violation("model", "C02:model-bad-answer", format!("substeps: {resp}"), case.clone()),
+        }
+    }
+    // admissible outcomes: the sequential replay of the two calls in call order, and - when the
+    // calls overlap - in the other order (Lean specification)
     let mut admissible: Vec<Vec<u64>> = vec![];
     let orders: Vec<[&HOp; 2]> = if schedule == 0 { vec![[&op1, &op2]] } else { vec![[&op1, &op2], [&op2, &op1]] };
     for o in orders {
